@@ -30,6 +30,8 @@ const (
 	tStruct
 	tPtr
 	tFunc
+	tMap
+	tIface
 )
 
 type ty struct {
@@ -74,6 +76,8 @@ type gen struct {
 	slInt   *ty
 	ptrInt  *ty
 	fnII    *ty
+	mapII   *ty
+	iface   *ty
 	globals []*vr
 	funcs   []*fdecl
 	pures   []*fdecl
@@ -94,6 +98,8 @@ func newGen(seed uint64) *gen {
 	g.slInt = &ty{k: tSlice, name: "[]int", elem: g.tInt}
 	g.ptrInt = &ty{k: tPtr, name: "*int", elem: g.tInt}
 	g.fnII = &ty{k: tFunc, name: "func(int) int", params: []*ty{g.tInt}, res: g.tInt}
+	g.mapII = &ty{k: tMap, name: "map[int]int", elem: g.tInt}
+	g.iface = &ty{k: tIface, name: "I0"}
 	return g
 }
 
@@ -176,6 +182,11 @@ func (g *gen) Program() string {
 		}
 	}
 	w.WriteString("var gp *int\n\n")
+	fmt.Fprintf(w, "type I0 interface {\n\tM0(x int) int\n\tM1() int\n}\n\ntype T0 struct{ a, b int }\n\ntype T1 struct{ n int }\n\ntype T2 int\n\n")
+	fmt.Fprintf(w, "func (t T0) M0(x int) int { return t.a*%d + x }\n\nfunc (t T0) M1() int {\n\temit(7, t.b)\n\treturn t.b\n}\n\n", 1+g.pick(3))
+	fmt.Fprintf(w, "func (t *T1) M0(x int) int {\n\tt.n += x\n\treturn t.n\n}\n\nfunc (t *T1) M1() int { return t.n * %d }\n\n", 2+g.pick(3))
+	fmt.Fprintf(w, "func (t T2) M0(x int) int { return int(t) - x }\n\nfunc (t T2) M1() int {\n\temit(8, int(t))\n\treturn int(t) + %d\n}\n\n", g.pick(5))
+	fmt.Fprintf(w, "func mkI(k int) I0 {\n\tswitch uint(k) %% %d {\n\tcase 0:\n\t\treturn T0{k, %d}\n\tcase 1:\n\t\treturn &T1{k}\n\tcase 2:\n\t\treturn T2(k)\n\t}\n\treturn nil\n}\n\n", 4+g.pick(4), g.pick(9))
 	w.WriteString("func esc(p *int) { gp = p }\n\nfunc poke(v int) {\n\tif gp != nil {\n\t\t*gp = v\n\t}\n}\n\nfunc peek() int {\n\tif gp != nil {\n\t\treturn *gp\n\t}\n\treturn -1\n}\n\n")
 	w.WriteString("func bump(p *int, d int) int {\n\t*p += d\n\treturn *p\n}\n\n")
 	w.WriteString("func tr(k int) int {\n\temit(9, k)\n\treturn k\n}\n\n")
@@ -241,6 +252,7 @@ type fgen struct {
 	results  []*vr // named results (if any)
 	hasFuel  bool
 	guard    string // condition under which the lvalue just generated is valid
+	canDefer bool
 	closures []*vr
 }
 
@@ -427,6 +439,19 @@ func (f *fgen) expr(t *ty, d int, plain bool) string {
 			}
 			return strConsts[g.pick(len(strConsts))]
 		}
+	case tMap:
+		if v := f.pickVar(plain, func(v *vr) bool { return v.t == t }); v != nil && g.chance(75) {
+			return v.name
+		}
+		if g.chance(20) {
+			return t.name + "(nil)"
+		}
+		return fmt.Sprintf("%s{%d: %s}", t.name, g.pick(5), f.expr(g.tInt, d-1, plain))
+	case tIface:
+		if v := f.pickVar(plain, func(v *vr) bool { return v.t == t }); v != nil && g.chance(60) {
+			return v.name
+		}
+		return fmt.Sprintf("mkI(%s)", f.expr(g.tInt, d-1, plain))
 	case tArray, tStruct, tSlice, tPtr, tFunc:
 		if v := f.pickVar(plain, func(v *vr) bool { return v.t == t && !v.appendable }); v != nil && (d <= 0 || g.chance(60)) {
 			return v.name
@@ -903,7 +928,7 @@ func (f *fgen) stmt() {
 	f.budget--
 	deep := f.depth >= 3
 	for {
-		k := g.pick(40)
+		k := g.pick(48)
 		switch {
 		case k < 5: // declaration
 			t := f.randType()
@@ -1044,8 +1069,14 @@ func (f *fgen) stmt() {
 		case k < 37: // closure
 			f.closureStmt()
 			return
-		case k < 39: // slices
+		case k < 40: // slices
 			f.sliceStmt()
+			return
+		case k < 45:
+			f.stage2Stmt()
+			return
+		case k < 47 && !deep:
+			f.constIdiom()
 			return
 		default: // multi-assign / swap
 			a := f.pickVar(false, func(v *vr) bool { return v.t == g.tInt && !v.readonly })
@@ -1800,6 +1831,263 @@ func (f *fgen) sliceStmt() {
 	}
 }
 
+// constIdiom: variables that only ever receive constants on the different paths (flags, selectors):
+// after lifting all edges of their phis are constants
+func (f *fgen) constIdiom() {
+	g := f.g
+	g.Feat["const-idiom"]++
+	if g.chance(50) {
+		v := &vr{name: f.fresh("ok"), t: g.tBool}
+		f.line("%s := %v", v.name, g.chance(50))
+		f.declare(v)
+		switch g.pick(3) {
+		case 0:
+			f.line("if %s {", f.nonConstBool(1))
+			f.line("\t%s = !%s", v.name, v.name)
+			f.line("}")
+		case 1:
+			i := f.fresh("i")
+			f.line("for %s := 0; %s < %d; %s++ {", i, i, 2+g.pick(3), i)
+			f.line("\tif %s == %s {", f.nonConstInt(1), i)
+			f.line("\t\t%s = true", v.name)
+			f.line("\t\tbreak")
+			f.line("\t}")
+			f.line("\t%s = false", v.name)
+			f.line("}")
+		default:
+			f.line("switch %s & 3 {", f.nonConstInt(1))
+			f.line("case 0:")
+			f.line("\t%s = true", v.name)
+			f.line("case 1, 2:")
+			f.line("\t%s = false", v.name)
+			f.line("}")
+		}
+		f.line("emitb(%d, %s)", g.pick(9), v.name)
+		return
+	}
+	t := g.tInt
+	if g.chance(30) {
+		t = g.ints[g.pick(len(g.ints))]
+	}
+	v := &vr{name: f.fresh("k"), t: t}
+	f.line("%s := %s(%s)", v.name, t.name, g.intConst(t))
+	f.declare(v)
+	switch g.pick(3) {
+	case 0:
+		f.line("if %s {", f.nonConstBool(1))
+		f.line("\t%s = %s", v.name, g.intConst(t))
+		f.line("} else if %s {", f.nonConstBool(1))
+		f.line("\t%s = %s", v.name, g.intConst(t))
+		f.line("}")
+	case 1:
+		f.line("switch %s & 3 {", f.nonConstInt(1))
+		f.line("case 0:")
+		f.line("\t%s = %s", v.name, g.intConst(t))
+		f.line("case 1:")
+		f.line("\t%s = %s", v.name, g.intConst(t))
+		f.line("\tfallthrough")
+		f.line("case 2:")
+		f.line("\temit(%d, int(%s))", g.pick(9), v.name)
+		f.line("default:")
+		f.line("\t%s = %s", v.name, g.intConst(t))
+		f.line("}")
+	default:
+		i := f.fresh("i")
+		f.line("for %s := range %d {", i, 2+g.pick(3))
+		f.line("\tif %s == %s {", f.nonConstInt(1), i)
+		f.line("\t\t%s = %s", v.name, g.intConst(t))
+		f.line("\t\tcontinue")
+		f.line("\t}")
+		f.line("\t%s = %s", v.name, g.intConst(t))
+		f.line("}")
+	}
+	f.line("emit(%d, int(%s))", g.pick(9), v.name)
+}
+
+// stage 2: interfaces and methods, maps, deferred calls, closures over per-iteration variables
+func (f *fgen) stage2Stmt() {
+	g := f.g
+	switch g.pick(12) {
+	case 0, 1: // interface value + dynamic calls
+		iv := f.pickVar(true, func(v *vr) bool { return v.t == g.iface })
+		if iv == nil || g.chance(40) {
+			iv = &vr{name: f.fresh("iv"), t: g.iface}
+			f.line("%s := mkI(%s)", iv.name, f.expr(g.tInt, 1, true))
+			f.line("_ = %s", iv.name)
+			f.declare(iv)
+		}
+		g.Feat["iface-invoke"]++
+		guard := g.chance(85)
+		if guard {
+			f.line("if %s != nil {", iv.name)
+			f.ind++
+		}
+		switch g.pick(3) {
+		case 0:
+			f.line("emit(%d, %s.M0(%s))", g.pick(9), iv.name, f.expr(g.tInt, 1, true))
+		case 1:
+			f.line("%s = %s.M0(%s) + %s.M1()", f.plainLvalue(g.tInt), iv.name, f.expr(g.tInt, 1, true), iv.name)
+		default:
+			f.line("emit(%d, %s.M1())", g.pick(9), iv.name)
+		}
+		if guard {
+			f.ind--
+			f.line("}")
+		}
+	case 2: // type switch
+		iv := f.pickVar(true, func(v *vr) bool { return v.t == g.iface })
+		src := ""
+		if iv != nil {
+			src = iv.name
+		} else {
+			src = fmt.Sprintf("mkI(%s)", f.expr(g.tInt, 1, true))
+		}
+		g.Feat["type-switch"]++
+		x := f.fresh("x")
+		f.line("switch %s := %s.(type) {", x, src)
+		order := []int{0, 1, 2, 3, 4}
+		for i := range order {
+			j := i + g.pick(len(order)-i)
+			order[i], order[j] = order[j], order[i]
+		}
+		for _, c := range order[:3+g.pick(3)] {
+			switch c {
+			case 0:
+				f.line("case T0:")
+				f.line("\temit(%d, %s.a+%s.b)", g.pick(9), x, x)
+			case 1:
+				f.line("case *T1:")
+				f.line("\t%s.n += %d", x, 1+g.pick(4))
+				f.line("\temit(%d, %s.n)", g.pick(9), x)
+			case 2:
+				f.line("case T2:")
+				f.line("\temit(%d, int(%s))", g.pick(9), x)
+			case 3:
+				f.line("case nil:")
+				f.line("\t_ = %s", x)
+				f.line("\temit(%d, -1)", g.pick(9))
+			default:
+				f.line("default:")
+				f.line("\t_ = %s", x)
+				f.line("\temit(%d, -2)", g.pick(9))
+			}
+		}
+		f.line("}")
+	case 3: // type assertion
+		iv := f.pickVar(true, func(v *vr) bool { return v.t == g.iface })
+		if iv == nil {
+			f.line("emit(%d, 0)", g.pick(9))
+			return
+		}
+		g.Feat["type-assert"]++
+		tn := []string{"T0", "*T1", "T2"}[g.pick(3)]
+		if g.chance(85) {
+			f.line("if %s, ok := %s.(%s); ok {", "y"+iv.name, iv.name, tn)
+			f.line("\temit(%d, %s.M1())", g.pick(9), "y"+iv.name)
+			f.line("}")
+		} else {
+			f.line("emit(%d, %s.(%s).M1())", g.pick(9), iv.name, tn)
+		}
+	case 4, 5: // maps
+		m := f.pickVar(false, func(v *vr) bool { return v.t == g.mapII })
+		if m == nil || g.chance(25) {
+			m = &vr{name: f.fresh("m"), t: g.mapII}
+			switch g.pick(3) {
+			case 0:
+				f.line("%s := map[int]int{}", m.name)
+			case 1:
+				f.line("%s := map[int]int{%d: %s, %d: %s}", m.name, g.pick(3), f.expr(g.tInt, 1, false), 3+g.pick(3), f.expr(g.tInt, 1, false))
+			default:
+				f.line("%s := make(map[int]int)", m.name)
+			}
+			f.line("_ = %s", m.name)
+			f.declare(m)
+		}
+		g.Feat["map-op"]++
+		key := fmt.Sprintf("int(%s %% 5)", f.uintOf(1, false))
+		switch g.pick(6) {
+		case 0, 1:
+			f.line("%s[%s] = %s", m.name, key, f.expr(g.tInt, 2, false))
+		case 2:
+			f.line("%s[%s] += %s", m.name, key, f.expr(g.tInt, 1, false))
+		case 3:
+			f.line("delete(%s, %s)", m.name, key)
+		case 4:
+			f.line("if %s, ok := %s[%s]; ok {", "w"+m.name, m.name, key)
+			f.line("\temit(%d, %s)", g.pick(9), "w"+m.name)
+			f.line("}")
+		default:
+			f.line("emit(%d, %s[%s]+len(%s))", g.pick(9), m.name, key, m.name)
+		}
+	case 6: // range over a map: order-independent accumulation only
+		m := f.pickVar(false, func(v *vr) bool { return v.t == g.mapII })
+		if m == nil {
+			f.line("emit(%d, 1)", g.pick(9))
+			return
+		}
+		g.Feat["range-map"]++
+		acc := f.fresh("sum")
+		f.line("%s := 0", acc)
+		f.line("for k, v := range %s {", m.name)
+		f.line("\t%s += k*%d + v", acc, 1+g.pick(3))
+		f.line("}")
+		f.line("emit(%d, %s)", g.pick(9), acc)
+	case 7, 8: // deferred calls
+		if !f.canDefer {
+			f.line("emit(%d, 2)", g.pick(9))
+			return
+		}
+		g.Feat["defer"]++
+		switch g.pick(3) {
+		case 0:
+			f.line("defer emit(%d, %s)", g.pick(9), f.expr(g.tInt, 2, false))
+		case 1:
+			if len(f.results) > 0 {
+				r := f.results[g.pick(len(f.results))]
+				if r.t == g.tInt {
+					f.line("defer func() { %s += %d }()", r.name, 1+g.pick(9))
+					return
+				}
+			}
+			f.line("defer emits(%d, %s)", g.pick(9), f.expr(g.tStr, 1, false))
+		default:
+			f.line("defer func() {")
+			f.line("\temit(%d, %s)", g.pick(9), f.expr(g.tInt, 1, false))
+			f.line("}()")
+		}
+	case 9: // closures capturing per-iteration loop variables, called after the loop
+		g.Feat["closure-loopvar"]++
+		fs := f.fresh("fs")
+		i := f.fresh("i")
+		f.line("var %s []func() int", fs)
+		switch g.pick(3) {
+		case 0:
+			f.line("for %s := 0; %s < %d; %s++ {", i, i, 2+g.pick(2), i)
+		case 1:
+			f.line("for %s := range %d {", i, 2+g.pick(2))
+		default:
+			f.line("for _, %s := range []int{%d, %d, %d} {", i, g.pick(9), g.pick(9), g.pick(9))
+		}
+		if g.chance(50) {
+			f.line("\t%s = append(%s, func() int { %s += %d; return %s })", fs, fs, i, 10+g.pick(5), i)
+		} else {
+			f.line("\t%s = append(%s, func() int { return %s * %d })", fs, fs, i, 2+g.pick(3))
+		}
+		f.line("}")
+		f.line("for _, fn := range %s {", fs)
+		f.line("\temit(%d, fn()+fn())", g.pick(9))
+		f.line("}")
+	default: // struct / array equality
+		g.Feat["aggregate-eq"]++
+		v := f.pickVar(false, func(v *vr) bool { return (v.t.k == tStruct || v.t.k == tArray) })
+		if v == nil {
+			f.line("emit(%d, 3)", g.pick(9))
+			return
+		}
+		f.line("emitb(%d, %s == %s)", g.pick(9), v.name, f.expr(v.t, 2, false))
+	}
+}
+
 func (f *fgen) ret() {
 	if len(f.fd.res) == 0 {
 		f.line("return")
@@ -1840,15 +2128,45 @@ func (g *gen) function(idx int) {
 		ps = append(ps, v.name+" "+t.name)
 	}
 	nr := 1 + g.pick(3)
-	rtypes := []*ty{g.tInt, g.tInt, g.tInt, g.ints[g.pick(len(g.ints))], g.tBool, g.tStr, g.slInt, g.structs[0], g.arrayOf(g.tInt, 3), g.ptrInt}
+	rtypes := []*ty{g.tInt, g.tInt, g.tInt, g.ints[g.pick(len(g.ints))], g.tBool, g.tStr, g.slInt, g.structs[0], g.arrayOf(g.tInt, 3), g.ptrInt, g.mapII, g.iface}
 	var rs []string
+	withDefer := g.chance(35)
+	f.canDefer = withDefer
 	for i := 0; i < nr; i++ {
 		t := rtypes[g.pick(len(rtypes))]
 		fd.res = append(fd.res, t)
-		rs = append(rs, t.name)
+		if withDefer {
+			r := &vr{name: fmt.Sprintf("r%d", i), t: t, unstable: true, escapable: t.k == tInt}
+			f.results = append(f.results, r)
+			f.declare(r)
+			rs = append(rs, r.name+" "+t.name)
+		} else {
+			rs = append(rs, t.name)
+		}
 	}
 	f.ind = 1
 	f.push()
+	if withDefer {
+		g.Feat["defer-recover-func"]++
+		f.line("defer func() {")
+		f.line("\tif e := recover(); e != nil {")
+		for _, r := range f.results {
+			switch r.t.k {
+			case tInt:
+				f.line("\t\t%s = %s(%d)", r.name, r.t.name, g.pick(100))
+			case tString:
+				f.line("\t\t%s += \"!\"", r.name)
+			case tBool:
+				f.line("\t\t%s = !%s", r.name, r.name)
+			}
+		}
+		f.line("\t\temit(%d, %d)", g.pick(9), g.pick(100))
+		if g.chance(15) {
+			f.line("\t\tpanic(e)")
+		}
+		f.line("\t}")
+		f.line("}()")
+	}
 	for f.budget > 0 {
 		f.stmt()
 	}
